@@ -1,6 +1,7 @@
 package props
 
 import (
+	server "Havoc/cmd/server"
 	"encoding/json"
 	"fmt"
 	"sort"
@@ -48,6 +49,8 @@ const (
 	fmUnknownEmptyDigest     // unknown user, digest of ""
 	fmOtherUsersDigest       // known user, digest of another operator's password
 	fmCleartextPassword      // known user, password itself instead of its digest
+	fmOnlineUserWrongDigest  // the name of an operator who is logged in right now, wrong digest
+	fmOnlineUserNoPassword   // ... and no password at all
 	fmKinds
 )
 
@@ -226,6 +229,12 @@ func (st *c06State) firstMessage(kind int, user, password string) ([]byte, bool)
 		v = auth(map[string]any{"User": user, "Password": digest("pw-neo")})
 	case fmCleartextPassword:
 		v = auth(map[string]any{"User": user, "Password": password})
+	case fmOnlineUserWrongDigest:
+		on := st.w.Operators[0].Name
+		v = world.MakePkg(world.EvInit, world.InitOAuth, on, map[string]any{"User": on, "Password": digest("not-" + on)})
+	case fmOnlineUserNoPassword:
+		on := st.w.Operators[0].Name
+		v = world.MakePkg(world.EvInit, world.InitOAuth, on, map[string]any{"User": on})
 	}
 	b, _ := json.Marshal(v)
 	return b, true
@@ -310,6 +319,13 @@ func (st *c06State) digest() string {
 		}
 	}
 	parts = append(parts, fmt.Sprintf("EV:%d", len(w.TS.EventsList)))
+	// the sessions of the operators who are logged in
+	w.TS.Clients.Range(func(_, v any) bool {
+		if c, ok := v.(*server.Client); ok && c.Authenticated {
+			parts = append(parts, "OP:"+c.Username)
+		}
+		return true
+	})
 	sort.Strings(parts)
 	return strings.Join(parts, "|")
 }
